@@ -317,6 +317,33 @@ VCHECK("c02.client", 600)
         client.openSession();
         client.pump(1);
         client.take();
+        // An <iq/> may be the answer to a request of ours: with a request outstanding under the same id and addressee the
+        // element takes the response path (OutgoingIqManager, the managers' result parsers) instead of the request path.
+        // Its type is re-drawn now and then, so that e.g. an error response without <error/> or a result carrying a
+        // request payload arrive as well.
+        int pendingDone = -1;
+        if (in.parsed.el.tagName() == u"iq") {
+            if (t.prob(1, 3)) {
+                static const QStringList types = { "get", "set", "result", "error", "", "bogus" };
+                QString ty = t.pick(types.toVector().toStdVector());
+                in.parsed.el.setAttribute(QStringLiteral("type"), ty);
+                in.desc += QStringLiteral(" retyped='%1'").arg(ty);
+                c.label("iq-retyped");
+            }
+            if (t.prob(1, 2)) {
+                if (in.parsed.el.attribute(QStringLiteral("id")).isEmpty())
+                    in.parsed.el.setAttribute(QStringLiteral("id"), QStringLiteral("r1"));
+                QXmppIq req(QXmppIq::Get);
+                req.setId(in.parsed.el.attribute(QStringLiteral("id")));
+                req.setTo(in.parsed.el.attribute(QStringLiteral("from")));
+                pendingDone = 0;
+                client.sendIq(std::move(req)).then(&client, [&pendingDone](QXmppClient::IqResult &&) { pendingDone++; });
+                client.pump(1);
+                client.take();
+                in.desc += QStringLiteral(" answers-an-outstanding-request");
+                c.label("iq-with-outstanding-request");
+            }
+        }
         c.sample([&] { return q(in.desc) + " E=" + q(elementXml(in.parsed.el).left(300)); });
         // the connected client receives top-level stream elements
         client.inject(in.parsed.el);
@@ -335,6 +362,11 @@ VCHECK("c02.client", 600)
             c.nontrivial(vh::fnv(in.xml.toUtf8()));
         client.closeSession();
         client.pump(1);
+        // whatever arrived, the request is over once the session is closed for good - and it completed once
+        if (pendingDone >= 0)
+            c.require(pendingDone == 1, "c02 client-request-completions " + std::to_string(pendingDone), [&] {
+                return "a request was outstanding when the element arrived; after the element and the end of the session it completed " + std::to_string(pendingDone) + " times\n received: " + q(elementXml(in.parsed.el).left(2000)) + "\n input: " + q(in.desc);
+            });
     }
     QCoreApplication::sendPostedEvents(nullptr, QEvent::DeferredDelete);
     QCoreApplication::processEvents();
